@@ -752,7 +752,7 @@ func (c *Ctx) ruleBalanced() {
 
 // blockingUnderLockReviewed: the blocking channel operations that run while sharedData.mu may be held, each read and found bounded.
 var blockingUnderLockReviewed = map[string]string{
-	"(*pkg/server.BgpServer).handleMGMTOp":   "reply on the per-operation errCh, which mgmtOperation creates with capacity 1 and reads exactly once",
+	"(*pkg/server.BgpServer).handleMGMTOp":   "reply on the per-operation errCh; the requester (mgmtOperation) is already blocked in the receive on it, and takes no lock",
 	"(*pkg/server.BgpServer).deleteNeighbor": "fsm.deconfiguredNotification has capacity 1 and is written once per neighbor deletion",
 	"(*pkg/server.bfdServer).AddPeer":        "select with the server-stopped alternative; the BFD loop does not take sharedData.mu",
 	"(*pkg/server.bfdServer).DeletePeer":     "select with the server-stopped alternative; the BFD loop does not take sharedData.mu",
@@ -833,6 +833,23 @@ func (c *Ctx) ruleWaitGroupPairing() {
 					if isWG(&x.Call, "Done") {
 						deferred = append(deferred, x)
 						nDone++
+					}
+					if mc, ok := x.Call.Value.(*ssa.MakeClosure); ok {
+						cl := mc.Fn.(*ssa.Function)
+						cm := map[*ssa.BasicBlock]bool{}
+						for _, cb := range cl.Blocks {
+							for _, ci := range cb.Instrs {
+								if cc, ok := ci.(*ssa.Call); ok && isWG(&cc.Call, "Done") {
+									cm[cb] = true
+								}
+							}
+						}
+						if len(cm) > 0 {
+							nDone++
+							if mustPassThrough(cl.Blocks[0], func(b *ssa.BasicBlock) bool { return cm[b] }) {
+								deferred = append(deferred, x)
+							}
+						}
 					}
 				case *ssa.Call:
 					if isWG(&x.Call, "Done") {
@@ -924,4 +941,174 @@ func (c *Ctx) ruleWaitGroupPairing() {
 			}
 		}
 	}
+}
+
+// ruleHandoverCapacity: a goroutine that must terminate never parks on an unbuffered hand-over.
+func (c *Ctx) ruleHandoverCapacity() {
+	r := c.R
+	rule := "E1e.handover-capacity"
+	r.Rule(rule, "goroutine termination: a function that runs as a WaitGroup-counted goroutine (it signals Done, or is called directly by one that does) and hands a result over with a bare channel send writes to a channel that has room for it — every make(chan) that can reach that send (through parameters, go statements and struct fields) has capacity ≥ 1 — because the reader may already have moved on; with an unbuffered channel the goroutine parks for ever and the Wait that collects it never returns", 2)
+	isWGDone := func(call *ssa.CallCommon) bool {
+		callee := call.StaticCallee()
+		if callee == nil || callee.Name() != "Done" || callee.Signature.Recv() == nil {
+			return false
+		}
+		n := ir.NamedOf(callee.Signature.Recv().Type())
+		return n != nil && n.Obj().Pkg() != nil && n.Obj().Pkg().Path() == "sync" && n.Obj().Name() == "WaitGroup"
+	}
+	fieldStores := map[*types.Var][]ssa.Value{}
+	for _, fn := range c.P.FuncsIn("pkg/server") {
+		for _, b := range fn.Blocks {
+			for _, in := range b.Instrs {
+				if st, ok := in.(*ssa.Store); ok {
+					if fa, ok := st.Addr.(*ssa.FieldAddr); ok {
+						if _, isChan := st.Val.Type().Underlying().(*types.Chan); isChan {
+							fieldStores[fieldVarOf(fa)] = append(fieldStores[fieldVarOf(fa)], st.Val)
+						}
+					}
+				}
+			}
+		}
+	}
+	var resolve func(v ssa.Value, depth int, out *[]*ssa.MakeChan, unknown *bool)
+	resolve = func(v ssa.Value, depth int, out *[]*ssa.MakeChan, unknown *bool) {
+		if depth > 6 {
+			*unknown = true
+			return
+		}
+		switch x := v.(type) {
+		case *ssa.MakeChan:
+			*out = append(*out, x)
+		case *ssa.ChangeType:
+			resolve(x.X, depth+1, out, unknown)
+		case *ssa.Phi:
+			for _, e := range x.Edges {
+				resolve(e, depth+1, out, unknown)
+			}
+		case *ssa.UnOp:
+			if fa, ok := x.X.(*ssa.FieldAddr); ok {
+				vals := fieldStores[fieldVarOf(fa)]
+				if len(vals) == 0 {
+					*unknown = true
+				}
+				for _, sv := range vals {
+					resolve(sv, depth+1, out, unknown)
+				}
+			} else {
+				*unknown = true
+			}
+		case *ssa.Parameter:
+			fn := x.Parent()
+			idx := -1
+			for i, p := range fn.Params {
+				if p == x {
+					idx = i
+				}
+			}
+			callers := c.P.Callers(fn)
+			if len(callers) == 0 || idx < 0 {
+				*unknown = true
+				return
+			}
+			for _, e := range callers {
+				ci, ok := e.Site.(ssa.CallInstruction)
+				if !ok || ci.Common().StaticCallee() != fn || idx >= len(ci.Common().Args) {
+					*unknown = true
+					continue
+				}
+				resolve(ci.Common().Args[idx], depth+1, out, unknown)
+			}
+		default:
+			*unknown = true
+		}
+	}
+	n := map[string]int{}
+	counted := map[*ssa.Function]bool{}
+	for _, fn := range c.P.FuncsIn("pkg/server") {
+		if fn.Blocks == nil {
+			continue
+		}
+		signals := false
+		for _, b := range fn.Blocks {
+			for _, in := range b.Instrs {
+				switch x := in.(type) {
+				case *ssa.Defer:
+					if isWGDone(&x.Call) {
+						signals = true
+					}
+					if mc, ok := x.Call.Value.(*ssa.MakeClosure); ok {
+						for _, cb := range mc.Fn.(*ssa.Function).Blocks {
+							for _, ci := range cb.Instrs {
+								if cc, ok := ci.(*ssa.Call); ok && isWGDone(&cc.Call) {
+									signals = true
+								}
+							}
+						}
+					}
+				case *ssa.Call:
+					if isWGDone(&x.Call) {
+						signals = true
+					}
+				}
+			}
+		}
+		if !signals {
+			continue
+		}
+		counted[fn] = true
+		// the functions such a goroutine body calls directly run on the counted goroutine too
+		for _, b := range fn.Blocks {
+			for _, in := range b.Instrs {
+				if call, ok := in.(*ssa.Call); ok {
+					if cal := call.Call.StaticCallee(); cal != nil && cal.Blocks != nil && cal.Pkg == fn.Pkg {
+						counted[cal] = true
+					}
+				}
+			}
+		}
+	}
+	for _, fn := range c.P.FuncsIn("pkg/server") {
+		if !counted[fn] {
+			continue
+		}
+		for _, b := range fn.Blocks {
+			for _, in := range b.Instrs {
+				s, ok := in.(*ssa.Send)
+				if !ok {
+					continue
+				}
+				var mcs []*ssa.MakeChan
+				unknown := false
+				resolve(s.Chan, 0, &mcs, &unknown)
+				fk := ir.FuncKey(fn)
+				n[fk]++
+				cons := fmt.Sprintf("bare send #%d", n[fk])
+				if len(mcs) == 0 {
+					r.Add(oblT(rule, fk, cons, c.P.InstrPos(s), "ok", "channel construction not resolved: not decided", nil, true))
+					continue
+				}
+				if why, ok := handoverReviewed[fk]; ok {
+					r.Except(rule, fk, cons, c.P.InstrPos(s), why)
+					continue
+				}
+				bad := ""
+				for _, mc := range mcs {
+					k, ok := mc.Size.(*ssa.Const)
+					if !ok || k.Value == nil || k.Int64() < 1 {
+						bad = c.P.InstrPos(mc)
+					}
+				}
+				if bad != "" {
+					r.Bad(rule, fk, cons, c.P.InstrPos(s), "the channel made at "+bad+" is unbuffered: when the reader has already left the state that receives, this goroutine blocks in the send for ever and the WaitGroup that collects it never completes")
+				} else {
+					r.Ok(rule, fk, cons, c.P.InstrPos(s), fmt.Sprintf("%d construction sites, all with capacity ≥ 1", len(mcs)))
+				}
+			}
+		}
+	}
+}
+
+// handoverReviewed: bare sends on unbuffered channels from counted goroutines that cannot park.
+var handoverReviewed = map[string]string{
+	"(*pkg/server.BgpServer).handleMGMTOp": "request/response rendezvous: mgmtOperation creates the reply channel, hands the request over and then blocks in the receive on it; the reply is sent exactly once per request",
 }
